@@ -13,20 +13,29 @@ def sh(cmd, cwd=wt, timeout=1500):
     return r.returncode, (r.stdout + r.stderr)[-1500:]
 sh("git checkout -q -- . && git clean -fdq")
 demo_cmd = open(os.path.join(d, "demo_cmd.txt")).read().strip().splitlines()[-1]
-demo_cmd = re.sub(r"^(cd [^&]*&&\s*)", "", demo_cmd)
+# "cd <dir> && go test …" runs in <dir> (cmd/hz is its own module); an absolute worktree prefix is dropped
+cwd_rel = ""
+mcd = re.match(r"^cd\s+(\S+)\s*&&\s*(.*)$", demo_cmd)
+if mcd:
+    cwd_rel = re.sub(r"^/tmp/[\w/]*?/C\d\d/?", "", mcd.group(1)).strip("/")
+    demo_cmd = mcd.group(2)
 demos = [f for f in os.listdir(d) if f.endswith(".go")]
-m = re.search(r"(\./[\w/.\-]+)/?\s*$", demo_cmd)
-pkgdir = m.group(1) if m else "."
-hz = "cmd/hz" in pkgdir or "cmd/hz" in demo_cmd
+m = re.search(r"(?:^|\s)(\./[\w/.\-]*[\w])/?(?=\s|$)", demo_cmd)
+pkgdir = os.path.join(cwd_rel, m.group(1) if m else ".")
+# optional demo_place.json: {"<file>": "<dir relative to repo root>"} for demos spread over several packages
+placemap = {f: pkgdir for f in demos}
+if os.path.exists(os.path.join(d, "demo_place.json")):
+    placemap.update(json.load(open(os.path.join(d, "demo_place.json"))))
+democwd = os.path.join(wt, cwd_rel)
 def place():
     for f in demos:
-        shutil.copy(os.path.join(d, f), os.path.join(wt, pkgdir, f))
+        shutil.copy(os.path.join(d, f), os.path.join(wt, placemap[f], f))
 def unplace():
     for f in demos:
-        p = os.path.join(wt, pkgdir, f)
+        p = os.path.join(wt, placemap[f], f)
         if os.path.exists(p): os.remove(p)
-meta = {"property": prop, "demo_cmd": demo_cmd, "demo_files": demos}
-place(); rc, out = sh(demo_cmd); meta["demo_on_pristine"] = "pass" if rc == 0 else "FAIL"; meta["demo_on_pristine_tail"] = out[-300:] if rc else ""
+meta = {"property": prop, "demo_cmd": (("cd %s && " % cwd_rel) if cwd_rel else "") + demo_cmd, "demo_files": demos}
+place(); rc, out = sh(demo_cmd, cwd=democwd); meta["demo_on_pristine"] = "pass" if rc == 0 else "FAIL"; meta["demo_on_pristine_tail"] = out[-300:] if rc else ""
 unplace()
 rc, out = sh("git apply %s" % os.path.join(d, "patch.diff")); assert rc == 0, out
 touched = sorted(set(os.path.dirname(l[6:]) for l in open(os.path.join(d, "patch.diff")) if l.startswith("+++ b/")))
@@ -39,7 +48,7 @@ if pk:
 else:
     rc, out = sh("go test -count=1 ./... 2>&1 | grep -v 'no test files' | grep -v '^ok' | grep '^--- FAIL' | head", cwd=os.path.join(wt, "cmd/hz"))
     meta["existing_tests_with_change"] = "cmd/hz failures (4 baseline failures expected): " + out.strip().replace("\n", "; ")
-place(); rc, out = sh(demo_cmd); meta["demo_with_change"] = "FAIL (as intended)" if rc != 0 else "pass (NOT a valid seed)"; meta["demo_with_change_tail"] = out[-400:]
+place(); rc, out = sh(demo_cmd, cwd=democwd); meta["demo_with_change"] = "FAIL (as intended)" if rc != 0 else "pass (NOT a valid seed)"; meta["demo_with_change_tail"] = out[-400:]
 unplace(); sh("git checkout -q -- . && git clean -fdq")
 notes = os.path.join(d, "notes.md")
 meta["needs_to_manifest"] = "see notes.md"
